@@ -22,6 +22,8 @@ structure RState where
   stopper : Option Nat := none
   scanMin : Lwm := none
   sleeps : Nat := 0
+  starting : Option Nat := none     -- thread inside `start()` that has not created a thread (yet)
+  noopStop : List Nat := []         -- threads inside a `stop()` that found no joinable thread
 
 def hdrNat (hdr : List String) (key : String) (dflt : Nat) : Nat :=
   (hdr.filterMap (fun h => if h.startsWith (key ++ "=") then (h.drop (key.length + 1)).toNat? else none)).head?.getD dflt
@@ -30,7 +32,7 @@ def hdrNat (hdr : List String) (key : String) (dflt : Nat) : Nat :=
 the 16-bit slot version wraps during the run -/
 def initR (hdr : List String) : RState :=
   let base := hdrNat hdr "base" 0
-  { c := { cap := hdrNat hdr "cap" 1 }, s := { State.init with pushIdx := base, popIdx := base }, gc := hdrNat hdr "gc" 1 }
+  { c := { cap := hdrNat hdr "cap" 1 }, s := { State.init with pushIdx := base, popIdx := base }, gc := 1000000000 }   -- no collector thread yet: set when `start()` spawns one
 
 def lookup (l : List (Nat × Nat)) (t : Nat) : Option Nat := (l.find? (·.1 = t)).map (·.2)
 def erase (l : List (Nat × Nat)) (t : Nat) : List (Nat × Nat) := l.filter (·.1 ≠ t)
@@ -113,11 +115,24 @@ def stepObs (r : RState) (o : Obs) : Except String RState := do
     match r.s.slots sl with
     | .pinned _ _ => return { r with tleave := (t, sl) :: erase r.tleave t }
     | _ => throw s!"unlock() of slot {sl} which is not pinned in the model"
+  | "ev", ["start"] => return { r with starting := some t }
+  | "ev", ["start_end"] =>
+    if r.starting = some t then
+      -- no thread was created: the model must have a joinable collector too
+      if r.s.cpc = .off then throw "start() returned without creating a thread but the model has no collector thread"
+      let r ← app r .start "start (no-op)"
+      return { r with starting := none }
+    else return r
   | "ev", ["stop_begin"] =>
-    let r ← app r .callStop "stop_begin"
-    return { r with stopper := some t }
+    if r.s.cpc = .off then
+      let r ← app r .stopNoop "stop_begin without a collector thread"
+      return { r with noopStop := t :: r.noopStop }
+    else
+      let r ← app r .callStop "stop_begin"
+      return { r with stopper := some t }
   | "ev", ["stop_end"] =>
-    if r.s.stop = .returned then return r
+    if r.noopStop.contains t then return { r with noopStop := r.noopStop.filter (· ≠ t) }
+    else if r.s.stop = .returned then return r
     else throw s!"stop() returned but the model's stop is at {reprStr r.s.stop}"
   | "ev", ["reclaim", id] =>
     let some id := id.toNat? | throw "bad id"
@@ -232,6 +247,13 @@ def stepObs (r : RState) (o : Obs) : Except String RState := do
   | "join", [ch] =>
     if ch.toNat? = some r.gc then app r .stopJoin "join" else return r
   | "fence", _ => return r
+  | "spawn", [ch] =>
+    if r.starting = some t then
+      let some ch := ch.toNat? | throw "bad tid"
+      if r.s.cpc ≠ .off then throw "start() created a thread but the model already has a joinable collector"
+      let r ← app r .start "start"
+      return { r with starting := none, gc := ch }
+    else return r
   | "spawn", _ => return r
   | "race", _ => throw "payload race reported by the monitor"
   | "VERDICT", _ => return r
@@ -241,7 +263,6 @@ def stepObs (r : RState) (o : Obs) : Except String RState := do
 def finalR (r : RState) : Except String Unit :=
   let ids := r.s.log.map (·.id)
   if ¬ ids.Nodup then .error "a reclaimer was invoked twice in the model path"
-  else if r.s.stop = .returned ∧ r.s.cpc ≠ .done then .error "stop returned before the collector finished"
   else .ok ()
 
 def main : IO Unit := do
